@@ -2,7 +2,7 @@
 use crate::dump;
 use crate::json::Json;
 use crate::rng::Rng;
-use crate::suites::{files_json, panic_msg, Files};
+use crate::suites::{files_json, mark_current, panic_msg, Files};
 use aidl_parser::{ParseFileResult, Parser};
 use std::collections::HashMap;
 use std::panic::{catch_unwind, AssertUnwindSafe};
@@ -20,6 +20,7 @@ fn validate_sorted(files: &Files) -> (Json, Json) {
 /// C11: the same set of (id, content) pairs validated repeatedly, by fresh parsers with shuffled
 /// insertion orders, and on another thread. Every std HashMap/HashSet instance has a fresh seed.
 pub fn determinism_case(files: &Files, rng: &mut Rng) -> Vec<(&'static str, Json)> {
+    mark_current("determinism", vec![("files", files_json(files))]);
     let r = catch_unwind(AssertUnwindSafe(|| {
         let (stage1, first) = validate_sorted(files);
         let mut runs = 1usize;
@@ -102,7 +103,31 @@ fn path_results(m: &HashMap<PathBuf, ParseFileResult<PathBuf>>) -> Json {
 
 /// C12: run a history on one parser; after every step compare `validate()` with a fresh parser
 /// built from the abstract id -> latest content map.
+fn history_ops_json(ops: &[HOp], dir: &std::path::Path) -> Json {
+    Json::Arr(
+        ops.iter()
+            .map(|op| match op {
+                HOp::Add(id, c) => Json::Arr(vec![Json::s("add"), Json::s(id.clone()), Json::s(c.clone())]),
+                HOp::Remove(id) => Json::Arr(vec![Json::s("remove"), Json::s(id.clone())]),
+                HOp::Validate => Json::Arr(vec![Json::s("validate")]),
+                HOp::AddFile(name, bytes) => Json::Arr(vec![
+                    Json::s("add_file"),
+                    Json::s(dir.join(name).to_string_lossy().to_string()),
+                    match bytes {
+                        None => Json::s("missing"),
+                        Some(b) => match String::from_utf8(b.clone()) {
+                            Ok(s) => Json::Arr(vec![Json::s("text"), Json::s(s)]),
+                            Err(_) => Json::s("invalid_utf8"),
+                        },
+                    },
+                ]),
+            })
+            .collect(),
+    )
+}
+
 pub fn history_case(ops: &[HOp], dir: &std::path::Path) -> Vec<(&'static str, Json)> {
+    mark_current("history", vec![("ops", history_ops_json(ops, dir))]);
     let r = catch_unwind(AssertUnwindSafe(|| {
         let mut p: Parser<PathBuf> = Parser::new();
         let mut abs: Vec<(String, String)> = Vec::new(); // id -> latest content (ids unique)
@@ -209,31 +234,13 @@ pub fn history_case(ops: &[HOp], dir: &std::path::Path) -> Vec<(&'static str, Js
         Ok(j) => j,
         Err(e) => Json::obj(vec![("outcome", Json::s("panic")), ("msg", Json::s(panic_msg(e)))]),
     };
-    let ops_json = Json::Arr(
-        ops.iter()
-            .map(|op| match op {
-                HOp::Add(id, c) => Json::Arr(vec![Json::s("add"), Json::s(id.clone()), Json::s(c.clone())]),
-                HOp::Remove(id) => Json::Arr(vec![Json::s("remove"), Json::s(id.clone())]),
-                HOp::Validate => Json::Arr(vec![Json::s("validate")]),
-                HOp::AddFile(name, bytes) => Json::Arr(vec![
-                    Json::s("add_file"),
-                    Json::s(dir.join(name).to_string_lossy().to_string()),
-                    match bytes {
-                        None => Json::s("missing"),
-                        Some(b) => match String::from_utf8(b.clone()) {
-                            Ok(s) => Json::Arr(vec![Json::s("text"), Json::s(s)]),
-                            Err(_) => Json::s("invalid_utf8"),
-                        },
-                    },
-                ]),
-            })
-            .collect(),
-    );
+    let ops_json = history_ops_json(ops, dir);
     vec![("op", Json::s("history")), ("ops", ops_json), ("impl", imp)]
 }
 
 /// C13: the same target file validated inside two projects
 pub fn perturb_case(files1: &Files, files2: &Files, target: &str, how: &str) -> Vec<(&'static str, Json)> {
+    mark_current("perturb", vec![("files", files_json(files1)), ("files_b", files_json(files2))]);
     let r = catch_unwind(AssertUnwindSafe(|| {
         let (s1, o1) = validate_sorted(files1);
         let (s2, o2) = validate_sorted(files2);
